@@ -678,7 +678,7 @@ func c20Levels(tier string) []core.Level {
 				}
 			}
 		}},
-		{Name: "one injected syntax error (unknown tag, illegal character x14 (7 of them outside ASCII), surplus literal x2) at every token boundary: rejected and located at that token", Gen: func(emit func(core.Case)) {
+		{Name: "one injected syntax error (unknown tag, illegal character x20 (7 of them outside ASCII, 6 that Unicode calls white space), surplus literal x2) at every token boundary: rejected and located at that token", Gen: func(emit func(core.Case)) {
 			for _, it := range items {
 				for _, pre := range []string{"", "t1\nt2 {{ a }}\n"} {
 					src := pre + it.src
@@ -732,7 +732,10 @@ func c20Levels(tier string) []core.Level {
 							}
 						}
 						_ = i
-						for _, ch := range []string{"$", "@", ";", "\\", "!", "^", "&", "\u00e9", "\u4e2d", "\u00a3", "\u00ea", "\u00b5", "\u201c", "\U0001F600"} {
+						for _, ch := range []string{"$", "@", ";", "\\", "!", "^", "&", "\u00e9", "\u4e2d", "\u00a3", "\u00ea", "\u00b5", "\u201c", "\U0001F600",
+							// characters Unicode calls white space that are not among the four blanks of the language: illegal like any other,
+							// also directly after a blank
+							"\f", "\v", "\u0085", "\u00a0", "\u2028", "\u3000"} {
 							ins(" "+ch+" ", 1, "illegal character")
 						}
 						if t.kind == kClose {
@@ -761,8 +764,8 @@ func c20Levels(tier string) []core.Level {
 				}
 			}
 		}},
-		{Name: "errors raised while loading a named template identify it (also when templates of other names with the same broken contents were loaded on the environment before): 6 broken templates x 20 names (incl. '%' sequences, spaces, non-ASCII, ' in ', names of 53..260 bytes, names that share a long prefix, a line break, blanks or line breaks at either end) x {direct, parse, include, extends, import, embed, use}", Gen: func(emit func(core.Case)) {
-			broken := []string{"x{% if %}", "{{ a", "{% bogus %}", "{{ a $ }}", "t{% for i in x %}", "{% include %}"}
+		{Name: "errors raised while loading a named template identify it (also when templates of other names with the same broken contents were loaded on the environment before): 7 broken templates (one per kind of parse error, incl. a second extends tag) x 20 names (incl. '%' sequences, spaces, non-ASCII, ' in ', names of 53..260 bytes, names that share a long prefix, a line break, blanks or line breaks at either end) x {direct, parse, include, extends, import, embed, use}", Gen: func(emit func(core.Case)) {
+			broken := []string{"x{% if %}", "{{ a", "{% bogus %}", "{{ a $ }}", "t{% for i in x %}", "{% include %}", "{% extends 'p' %}\n{% extends 'q' %}"}
 			for _, b := range broken {
 				for _, name := range []string{"a", "a.html.twig", "dir/b.twig", "my tpl.twig", "100%.twig", "a%20b.twig", "%s", "report_%d.twig", "{0}.twig", "a\\b.twig", "ü€.twig", "a:b", "x in y.twig",
 					// long names (any length is a name), names that agree in their first 40 / 100 bytes, a name with a line break
